@@ -28,10 +28,11 @@ var Ops = []string{
 	"Remove(/w/b)", "Remove(/w/a/a)", "RemoveAll(/w/a)", "MkdirAll(/w/a/x/y)", "ReadDir(/w)", "ReadDir(/w/a)",
 	"Rename(/w/a/a,/w/e/x)", "Rename(/w/e/f,/w/a/y)", "Rename(/w/a,/w/e/a2)", "Stat(/w/a/a)", "ReadFile(/w/b)", "MkdirTemp(/w)", "CreateTemp(/w)",
 	"Symlink(a,/w/n)", "Truncate(/w/b)", "Chmod(/w/b)", "Rename(/w/a/c,/w/a/a)", "Link(/w/a/c,/w/n)",
+	"Lstat(/w/a/x/y)", "WriteFile(/w/e/n)",
 }
 
 // NumOps is len(Ops).
-const NumOps = 24
+const NumOps = 26
 
 func seed(v avfs.VFS) {
 	hx.Must(v.MkdirAll("/w/a", 0o755))
@@ -90,6 +91,13 @@ func run(v avfs.VFS, i int) string {
 		return code(v.Rename("/w/e/f", "/w/a/y"))
 	case "Rename(/w/a,/w/e/a2)":
 		return code(v.Rename("/w/a", "/w/e/a2"))
+	case "Lstat(/w/a/x/y)":
+		// missing unless the other goroutine creates it
+		_, err := v.Lstat("/w/a/x/y")
+		return code(err)
+	case "WriteFile(/w/e/n)":
+		// a creation in another directory than the other creating templates
+		return code(v.WriteFile("/w/e/n", []byte("e"), 0o644))
 	case "Stat(/w/a/a)":
 		fi, err := v.Stat("/w/a/a")
 		if err != nil {
